@@ -1,21 +1,38 @@
 import ExoVerif.Generated.Facts
+import ExoVerif.Generated.Kernels
 import ExoVerif.Props.C11
 /-!
-# C11 tie: the regenerated list of panic-capable sites on block paths is the reviewed list
+# C11 tie: every panic-capable site on a block path carries a review, encoded here
 
 `Gen.panicSitesInBlockPaths` is recomputed from the Go sources on every run (syntactic call graph by
 function name from the Begin/EndBlock methods, epoch hooks and x/dogfood's SDK-facing staking
-interface; over-approximating). A new unguarded division, index, `Must…`, explicit panic, unchecked
-type assertion or swallowed error in a function on a block path changes the list and breaks
-`C11_all_panic_sites_covered` until the site is reviewed. Review classes (by kind): `must` = codec
-(un)marshal of values the module itself stored, or key parsing of keys it built; `index` = bounds
-established by the enclosing loop/length check (the sort comparators, `keys[i]/powers[i]` of equal
-length, `Prices[0]` behind sanityCheck) or listed below; `quo`/`intdiv` = divisor checked non-zero by
-the caller or listed below; `errfall` = swallowed error followed by use of the result.
-`knownFindingSites` are the sites with a replayed halt (F-04b, F-11a, F-11b).
+interface; over-approximating). `reviewTable` pairs each site with the reason it cannot halt a block —
+or with the finding that shows it can. `C11_panic_sites_eq_reviewed` is the tie: a new unguarded
+division, index, `Must…`, explicit panic, unchecked type assertion or swallowed error in a function on a
+block path (or the removal of one) changes the generated list and breaks the proof until the table is
+updated. `guard` entries name a theorem of `Props/C11.lean` about a model of the enclosing code; the
+other classes are justifications by reading (no theorem), counted in `C11_review_counts`.
+(Written by tools/gen_c11_review.py after review; static afterwards.)
 -/
 namespace ExoVerif.Blocks
 open ExoVerif.Gen
+
+inductive Review where
+  | guard (theoremName : String)   -- proved: the dangerous operand cannot occur (model of the enclosing function)
+  | finding (id : String)          -- it does halt: open defect, replayed on the real application
+  | candidate (id : String)        -- suspected, not reproduced
+  | codec                          -- (un)marshal of bytes this module wrote itself with the paired Marshal
+  | loopBound (why : String)       -- index within bounds by the enclosing loop / length check / construction
+  | inputChecked (why : String)    -- the value was validated before it could reach this point
+  | noResultUsed                   -- swallowed error, but nothing returned by the failed call is used afterwards
+  | notWired                       -- x/appchain is not registered in app/app.go (call-graph over-approximation)
+  | assumed (why : String)         -- reviewed by reading only
+  | unreviewed
+deriving DecidableEq, Repr
+
+def Review.isGuard : Review → Bool | .guard _ => true | _ => false
+def Review.isFinding : Review → Bool | .finding _ => true | _ => false
+def Review.isOpen : Review → Bool | .finding _ => true | .candidate _ => true | .assumed _ => true | .unreviewed => true | _ => false
 
 def reviewedRoots : List String := [
   "x/appchain/coordinator/keeper/impl_epochs_hooks.go:EpochsHooksWrapper.AfterEpochEnd",
@@ -71,229 +88,262 @@ def reviewedRoots : List String := [
   "x/slash/module.go:AppModule.BeginBlock",
   "x/slash/module.go:AppModule.EndBlock"]
 
-def reviewed : List String := [
-  "utils/store.go:KVStore.Get:must:store.cdc.MustUnmarshalLengthPrefixed(bz, value)",
-  "utils/store.go:KVStore.Set:must:store.cdc.MustMarshalLengthPrefixed(value)",
-  "utils/store.go:basicKey.AsKey:index:delimiter[0]",
-  "utils/utils.go:SortByPower:index:indices[i]",
-  "utils/utils.go:SortByPower:index:indices[i]#2",
-  "utils/utils.go:SortByPower:index:indices[i]#3",
-  "utils/utils.go:SortByPower:index:indices[j]",
-  "utils/utils.go:SortByPower:index:indices[j]#2",
-  "utils/utils.go:SortByPower:index:indices[j]#3",
-  "utils/utils.go:SortByPower:index:operatorAddrs[idx]",
-  "utils/utils.go:SortByPower:index:operatorAddrs[indices[i]]",
-  "utils/utils.go:SortByPower:index:operatorAddrs[indices[j]]",
-  "utils/utils.go:SortByPower:index:powers[idx]",
-  "utils/utils.go:SortByPower:index:powers[indices[i]]",
-  "utils/utils.go:SortByPower:index:powers[indices[i]]#2",
-  "utils/utils.go:SortByPower:index:powers[indices[j]]",
-  "utils/utils.go:SortByPower:index:powers[indices[j]]#2",
-  "utils/utils.go:SortByPower:index:pubKeys[idx]",
-  "utils/utils.go:SortByPower:index:sortedOperatorAddrs[i]",
-  "utils/utils.go:SortByPower:index:sortedPowers[i]",
-  "utils/utils.go:SortByPower:index:sortedPubKeys[i]",
-  "x/appchain/coordinator/keeper/ibc_client.go:Keeper.MakeSubscriberGenesis:assert:consState.(*ibctmtypes.ConsensusState)",
-  "x/appchain/coordinator/keeper/ibc_client.go:Keeper.MakeSubscriberGenesis:index:keys[i]",
-  "x/appchain/coordinator/keeper/ibc_client.go:Keeper.MakeSubscriberGenesis:index:powers[i]",
-  "x/appchain/coordinator/keeper/ibc_client.go:Keeper.SetSubscriberGenesis:must:k.cdc.MustMarshal(genesis)",
-  "x/appchain/coordinator/keeper/impl_epochs_hooks.go:EpochsHooksWrapper.AfterEpochEnd:errfall:err != nil",
-  "x/appchain/coordinator/keeper/params.go:Keeper.GetParams:must:k.cdc.MustUnmarshal(bz, &params)",
-  "x/appchain/coordinator/keeper/register.go:Keeper.GetPendingSubChains:must:k.cdc.MustUnmarshal(store.Get(key), &res)",
-  "x/appchain/coordinator/keeper/timeout.go:Keeper.GetChainsToInitTimeout:must:k.cdc.MustUnmarshal(bz, &res)",
-  "x/appchain/coordinator/keeper/timeout.go:Keeper.SetChainsToInitTimeout:must:k.cdc.MustMarshal(&chains)",
-  "x/appchain/subscriber/keeper/params.go:Keeper.GetParams:must:k.cdc.MustUnmarshal(bz, &res)",
-  "x/assets/keeper/client_chain_asset.go:Keeper.GetAssetsDecimal:must:k.cdc.MustUnmarshal(value, &ret)",
-  "x/assets/keeper/client_chain_asset.go:Keeper.GetStakingAssetInfo:must:k.cdc.MustUnmarshal(value, &ret)",
-  "x/assets/keeper/operator_asset.go:Keeper.GetOperatorSpecifiedAssetInfo:must:k.cdc.MustUnmarshal(value, &ret)",
-  "x/assets/keeper/operator_asset.go:Keeper.IterateAssetsForOperator:must:k.cdc.MustMarshal(&amounts)",
-  "x/assets/keeper/operator_asset.go:Keeper.IterateAssetsForOperator:must:k.cdc.MustUnmarshal(iterator.Value(), &amounts)",
-  "x/assets/keeper/operator_asset.go:Keeper.UpdateOperatorAssetState:must:k.cdc.MustMarshal(&assetState)",
-  "x/assets/keeper/operator_asset.go:Keeper.UpdateOperatorAssetState:must:k.cdc.MustUnmarshal(value, &assetState)",
-  "x/assets/keeper/params.go:Keeper.GetParams:must:k.cdc.MustUnmarshal(value, ret)",
-  "x/assets/keeper/staker_asset.go:Keeper.GetStakerSpecifiedAssetInfo:must:k.cdc.MustUnmarshal(value, &ret)",
-  "x/assets/keeper/staker_asset.go:Keeper.GetStakerSpecifiedAssetInfo:must:sdk.MustAccAddressFromBech32(operator)",
-  "x/assets/keeper/staker_asset.go:Keeper.UpdateStakerAssetState:must:k.cdc.MustMarshal(&assetState)",
-  "x/assets/keeper/staker_asset.go:Keeper.UpdateStakerAssetState:must:k.cdc.MustUnmarshal(value, &assetState)",
-  "x/assets/types/keys.go:ParseID:index:keys[0]",
-  "x/assets/types/keys.go:ParseID:index:keys[0]#2",
-  "x/avs/keeper/impl_epoch_hook.go:EpochsHooksWrapper.AfterEpochEnd:errfall:err != nil",
-  "x/avs/keeper/impl_epoch_hook.go:EpochsHooksWrapper.AfterEpochEnd:errfall:err != nil || power.ActiveUSDValue.IsNegative()",
-  "x/avs/keeper/impl_epoch_hook.go:EpochsHooksWrapper.AfterEpochEnd:errfall:err != nil || taskPowerTotal.IsZero() || operatorPowerTotal.IsZero()",
-  "x/avs/keeper/impl_epoch_hook.go:EpochsHooksWrapper.AfterEpochEnd:errfall:err != nil#2",
-  "x/avs/keeper/impl_epoch_hook.go:EpochsHooksWrapper.AfterEpochEnd:quo:taskPowerTotal.Quo(operatorPowerTotal)",
-  "x/avs/keeper/keeper.go:Keeper.GetAVSInfo:must:k.cdc.MustUnmarshal(value, &ret)",
-  "x/avs/keeper/keeper.go:Keeper.IterateAVSInfo:must:k.cdc.MustUnmarshal(iterator.Value(), &avs)",
-  "x/avs/keeper/params.go:Keeper.GetParams:must:k.cdc.MustUnmarshal(value, ret)",
-  "x/avs/keeper/task.go:Keeper.GetTaskInfo:must:k.cdc.MustUnmarshal(value, &ret)",
-  "x/avs/keeper/task.go:Keeper.GroupTasksByIDAndAddress:index:taskGroup[i]",
-  "x/avs/keeper/task.go:Keeper.GroupTasksByIDAndAddress:index:taskGroup[j]",
-  "x/avs/keeper/task.go:Keeper.IterateResultInfo:must:k.cdc.MustUnmarshal(iterator.Value(), &task)",
-  "x/avs/keeper/task.go:Keeper.SetTaskInfo:must:k.cdc.MustMarshal(task)",
-  "x/avs/types/types.go:ChainIDWithoutRevision:index:splitStr[0]",
-  "x/delegation/keeper/abci.go:Keeper.EndBlock:must:sdk.MustAccAddressFromBech32(record.OperatorAddr)",
-  "x/delegation/keeper/delegation_state.go:Keeper.DeleteStakerForOperator:index:stakers.Stakers[:i]",
-  "x/delegation/keeper/delegation_state.go:Keeper.DeleteStakerForOperator:index:stakers.Stakers[i+1:]",
-  "x/delegation/keeper/delegation_state.go:Keeper.DeleteStakerForOperator:must:k.cdc.MustMarshal(&stakers)",
-  "x/delegation/keeper/delegation_state.go:Keeper.DeleteStakerForOperator:must:k.cdc.MustUnmarshal(value, &stakers)",
-  "x/delegation/keeper/delegation_state.go:Keeper.GetStakersByOperator:must:k.cdc.MustUnmarshal(value, &stakerList)",
-  "x/delegation/keeper/delegation_state.go:Keeper.IterateDelegations:must:k.cdc.MustUnmarshal(iterator.Value(), &amounts)",
-  "x/delegation/keeper/delegation_state.go:Keeper.SetStakerShareToZero:must:k.cdc.MustMarshal(&delegationState)",
-  "x/delegation/keeper/delegation_state.go:Keeper.SetStakerShareToZero:must:k.cdc.MustUnmarshal(value, &delegationState)",
-  "x/delegation/keeper/delegation_state.go:Keeper.TotalDelegatedAmountForStakerAsset:must:sdk.MustAccAddressFromBech32(keys.GetOperatorAddr())",
-  "x/delegation/keeper/delegation_state.go:Keeper.UpdateDelegationState:must:k.cdc.MustMarshal(&delegationState)",
-  "x/delegation/keeper/delegation_state.go:Keeper.UpdateDelegationState:must:k.cdc.MustUnmarshal(value, &delegationState)",
-  "x/delegation/keeper/share.go:TokensFromShares:quo:(stakerShare.MulInt(totalAmount)).Quo(totalShare)",
-  "x/delegation/keeper/un_delegation_state.go:Keeper.GetUndelegationRecords:must:k.cdc.MustUnmarshal(value, &undelegationRecord)",
-  "x/delegation/keeper/un_delegation_state.go:Keeper.IterateUndelegationsByOperator:must:k.cdc.MustMarshal(&undelegation)",
-  "x/delegation/keeper/un_delegation_state.go:Keeper.IterateUndelegationsByOperator:must:k.cdc.MustUnmarshal(iterator.Value(), &undelegation)",
-  "x/delegation/keeper/un_delegation_state.go:Keeper.IterateUndelegationsByStakerAndAsset:must:k.cdc.MustMarshal(&undelegation)",
-  "x/delegation/keeper/un_delegation_state.go:Keeper.IterateUndelegationsByStakerAndAsset:must:k.cdc.MustUnmarshal(infoValue, &undelegation)",
-  "x/delegation/keeper/un_delegation_state.go:Keeper.SetUndelegationRecords:must:k.cdc.MustMarshal(&record)",
-  "x/delegation/keeper/update_native_restaking_balance.go:Keeper.UpdateNSTBalance:quo:sdkmath.LegacyNewDecFromBigInt(pendingSlashAmount.BigInt()).Quo(sdkmath.LegacyNe…",
-  "x/delegation/types/keys.go:ParseStakerAssetIDAndOperator:index:stringList[0]",
-  "x/delegation/types/keys.go:ParseUndelegationRecordKey:index:stringList[0]",
-  "x/dogfood/keeper/abci.go:Keeper.EndBlock:errfall:err != nil",
-  "x/dogfood/keeper/abci.go:Keeper.EndBlock:errfall:err != nil#2",
-  "x/dogfood/keeper/abci.go:Keeper.EndBlock:index:keys[i]",
-  "x/dogfood/keeper/abci.go:Keeper.EndBlock:index:powers[i]",
-  "x/dogfood/keeper/impl_sdk.go:Keeper.IterateBondedValidatorsByPower:index:prevList[i]",
-  "x/dogfood/keeper/impl_sdk.go:Keeper.IterateBondedValidatorsByPower:index:prevList[j]",
-  "x/dogfood/keeper/impl_sdk.go:Keeper.IterateDelegations:panic:panic(\"unimplemented on this keeper\")",
-  "x/dogfood/keeper/impl_sdk.go:Keeper.TotalBondedTokens:panic:panic(\"unimplemented on this keeper\")",
-  "x/dogfood/keeper/opt_out.go:Keeper.GetConsensusAddrsToPrune:panic:panic(err)",
-  "x/dogfood/keeper/opt_out.go:Keeper.GetOptOutsToFinish:panic:panic(err)",
-  "x/dogfood/keeper/params.go:Keeper.GetDogfoodParams:must:k.cdc.MustUnmarshal(bz, &params)",
-  "x/dogfood/keeper/pending.go:Keeper.SetPendingConsensusAddrs:must:k.cdc.MustMarshal(&addrs)",
-  "x/dogfood/keeper/pending.go:Keeper.SetPendingOptOuts:must:k.cdc.MustMarshal(&addrs)",
-  "x/dogfood/keeper/pending.go:Keeper.SetPendingUndelegations:must:k.cdc.MustMarshal(&undelegations)",
-  "x/dogfood/keeper/unbonding.go:Keeper.GetUndelegationsToMature:panic:panic(err)",
-  "x/dogfood/keeper/validators.go:Keeper.ApplyValidatorChanges:index:ret[i]",
-  "x/dogfood/keeper/validators.go:Keeper.ApplyValidatorChanges:index:ret[i]#2",
-  "x/dogfood/keeper/validators.go:Keeper.ApplyValidatorChanges:index:ret[i]#3",
-  "x/dogfood/keeper/validators.go:Keeper.ApplyValidatorChanges:index:ret[j]",
-  "x/dogfood/keeper/validators.go:Keeper.ApplyValidatorChanges:index:ret[j]#2",
-  "x/dogfood/keeper/validators.go:Keeper.ApplyValidatorChanges:index:ret[j]#3",
-  "x/dogfood/keeper/validators.go:Keeper.GetAllExocoreValidators:must:k.cdc.MustUnmarshal(iterator.Value(), &val)",
-  "x/dogfood/keeper/validators.go:Keeper.GetExocoreValidator:must:k.cdc.MustUnmarshal(v, &validator)",
-  "x/dogfood/keeper/validators.go:Keeper.GetHistoricalInfo:must:stakingtypes.MustUnmarshalHistoricalInfo(k.cdc, value)",
-  "x/dogfood/keeper/validators.go:Keeper.GetLastTotalPower:must:k.cdc.MustUnmarshal(bz, &ip)",
-  "x/dogfood/keeper/validators.go:Keeper.GetValidatorUpdates:must:k.cdc.MustUnmarshal(bz, &valUpdates)",
-  "x/dogfood/keeper/validators.go:Keeper.SetExocoreValidator:must:k.cdc.MustMarshal(&validator)",
-  "x/dogfood/keeper/validators.go:Keeper.SetHistoricalInfo:must:k.cdc.MustMarshal(hi)",
-  "x/dogfood/keeper/validators.go:Keeper.SetLastTotalPower:must:k.cdc.MustMarshal(&sdk.IntProto{Int: power})",
-  "x/dogfood/keeper/validators.go:Keeper.SetValidatorUpdates:must:k.cdc.MustMarshal(&stakingtypes.ValidatorUpdates{Updates: valUpdates})",
-  "x/epochs/keeper/epoch_infos.go:Keeper.GetEpochInfo:must:k.cdc.MustUnmarshal(bz, &epoch)",
-  "x/epochs/keeper/epoch_infos.go:Keeper.IterateEpochInfos:must:k.cdc.MustUnmarshal(iterator.Value(), &epoch)",
-  "x/epochs/keeper/epoch_infos.go:Keeper.setEpochInfoUnchecked:must:k.cdc.MustMarshal(&epoch)",
-  "x/evm/keeper/keeper.go:Keeper.WithChainID:panic:panic(\"chain id already set\")",
-  "x/evm/keeper/keeper.go:Keeper.WithChainID:panic:panic(err)",
-  "x/evm/keeper/params.go:Keeper.GetParams:must:k.cdc.MustUnmarshal(bz, &params)",
-  "x/exomint/keeper/params.go:Keeper.GetParams:must:k.cdc.MustUnmarshal(bz, &params)",
-  "x/feedistribution/keeper/allocation.go:Keeper.AllocateTokens:quo:math.LegacyNewDec(val.Power).QuoTruncate(math.LegacyNewDec(totalPreviousPower))",
-  "x/feedistribution/keeper/allocation.go:Keeper.AllocateTokensToStakers:index:globalStakerAddressList[i]",
-  "x/feedistribution/keeper/allocation.go:Keeper.AllocateTokensToStakers:index:globalStakerAddressList[j]",
-  "x/feedistribution/keeper/allocation.go:Keeper.AllocateTokensToStakers:quo:stakerPower.QuoTruncate(curTotalStakersPowers)",
-  "x/feedistribution/keeper/allocation.go:Keeper.AllocateTokensToValidator:errfall:err != nil",
-  "x/feedistribution/keeper/keeper.go:Keeper.GetFeePool:must:k.cdc.MustMarshal(feePool)",
-  "x/feedistribution/keeper/keeper.go:Keeper.GetFeePool:must:k.cdc.MustUnmarshal(b, fp)",
-  "x/feedistribution/keeper/keeper.go:Keeper.GetStakerRewards:must:k.cdc.MustUnmarshal(bz, &rewards)",
-  "x/feedistribution/keeper/keeper.go:Keeper.GetValidatorAccumulatedCommission:must:k.cdc.MustUnmarshal(b, &commission)",
-  "x/feedistribution/keeper/keeper.go:Keeper.GetValidatorOutstandingRewards:must:k.cdc.MustUnmarshal(bz, &rewards)",
-  "x/feedistribution/keeper/keeper.go:Keeper.SetFeePool:must:k.cdc.MustMarshal(feePool)",
-  "x/feedistribution/keeper/keeper.go:Keeper.SetStakerRewards:must:k.cdc.MustMarshal(&rewards)",
-  "x/feedistribution/keeper/keeper.go:Keeper.SetValidatorAccumulatedCommission:must:k.cdc.MustMarshal(&commission)",
-  "x/feedistribution/keeper/keeper.go:Keeper.SetValidatorAccumulatedCommission:must:k.cdc.MustMarshal(&types.ValidatorAccumulatedCommission{})",
-  "x/feedistribution/keeper/keeper.go:Keeper.SetValidatorOutstandingRewards:must:k.cdc.MustMarshal(&rewards)",
-  "x/feedistribution/keeper/params.go:Keeper.GetParams:must:k.cdc.MustUnmarshal(bz, &params)",
-  "x/feedistribution/types/keys.go:GetStakerOutstandingRewardsKey:must:address.MustLengthPrefix([]byte(staker))",
-  "x/feedistribution/types/keys.go:GetValidatorAccumulatedCommissionKey:must:address.MustLengthPrefix(v.Bytes())",
-  "x/feedistribution/types/keys.go:GetValidatorOutstandingRewardsKey:must:address.MustLengthPrefix(valAddr.Bytes())",
-  "x/operator/keeper/common_func.go:CalculateUSDValue:quo:assetValueDec.QuoInt(divisor)",
-  "x/operator/keeper/consensus_keys.go:Keeper.GetActiveOperatorsForChainID:index:pks[i]",
-  "x/operator/keeper/consensus_keys.go:Keeper.GetOperatorsForChainID:index:iterator.Key()[len(prefix):]",
-  "x/operator/keeper/consensus_keys.go:Keeper.GetOperatorsForChainID:must:k.cdc.MustUnmarshal(res, ret)",
-  "x/operator/keeper/consensus_keys.go:Keeper.getOperatorConsKeyForChainID:must:k.cdc.MustUnmarshal(res, key)",
-  "x/operator/keeper/operator.go:Keeper.GetOptedInfo:must:k.cdc.MustUnmarshal(value, &ret)",
-  "x/operator/keeper/operator.go:Keeper.HandleOptedInfo:must:k.cdc.MustMarshal(info)",
-  "x/operator/keeper/operator.go:Keeper.HandleOptedInfo:must:k.cdc.MustUnmarshal(value, info)",
-  "x/operator/keeper/operator.go:Keeper.OperatorInfo:must:k.cdc.MustUnmarshal(value, &ret)",
-  "x/operator/keeper/operator_slash_state.go:Keeper.UpdateOperatorSlashInfo:must:k.cdc.MustMarshal(&slashInfo)",
-  "x/operator/keeper/slash.go:Keeper.SetJailedState:errfall:err != nil",
-  "x/operator/keeper/slash.go:Keeper.SlashAssets:quo:slashUSDValue.Quo(stakingInfo.StakingAndWaitUnbonding)",
-  "x/operator/keeper/usd_value.go:Keeper.GetAVSUSDValue:must:k.cdc.MustUnmarshal(value, &ret)",
-  "x/operator/keeper/usd_value.go:Keeper.GetOperatorOptedUSDValue:must:k.cdc.MustUnmarshal(value, &ret)",
-  "x/operator/keeper/usd_value.go:Keeper.IterateOperatorsForAVS:must:k.cdc.MustMarshal(&optedUSDValues)",
-  "x/operator/keeper/usd_value.go:Keeper.IterateOperatorsForAVS:must:k.cdc.MustUnmarshal(iterator.Value(), &optedUSDValues)",
-  "x/operator/keeper/usd_value.go:Keeper.SetAVSUSDValue:must:k.cdc.MustMarshal(&setValue)",
-  "x/oracle/keeper/aggregator/aggregator.go:aggregator.fillPrice:index:pSource.Prices[0]",
-  "x/oracle/keeper/aggregator/aggregator.go:aggregator.fillPrice:index:pSource.Prices[0]#2",
-  "x/oracle/keeper/aggregator/aggregator.go:aggregator.fillPrice:index:pSource.Prices[0]#3",
-  "x/oracle/keeper/aggregator/aggregator.go:aggregator.fillPrice:index:pSource.Prices[0]#4",
-  "x/oracle/keeper/aggregator/context.go:AggregatorContext.FillPrice:index:msg.Prices[0]",
-  "x/oracle/keeper/aggregator/context.go:AggregatorContext.FillPrice:index:msg.Prices[0].Prices[0]",
-  "x/oracle/keeper/aggregator/context.go:AggregatorContext.PrepareRoundEndBlock:intdiv:delta % feeder.Interval",
-  "x/oracle/keeper/aggregator/context.go:AggregatorContext.PrepareRoundEndBlock:intdiv:delta / feeder.Interval",
-  "x/oracle/keeper/aggregator/filter.go:filter.addPSource:index:pSource.Prices[0]",
-  "x/oracle/keeper/cache/caches.go:Cache.AddCache:panic:panic(\"no other types are support\")",
-  "x/oracle/keeper/cache/caches.go:cacheMsgs.commit:index:index.Index[i:]",
-  "x/oracle/keeper/cache/caches.go:cacheParams.commit:index:index.Index[i:]",
-  "x/oracle/keeper/common/types.go:BigIntList.Median:index:b[l/2-1]",
-  "x/oracle/keeper/common/types.go:BigIntList.Median:index:b[l/2]",
-  "x/oracle/keeper/common/types.go:BigIntList.Median:index:b[l/2]#2",
-  "x/oracle/keeper/common/types.go:BigIntList.Median:quo:new(big.Int).Div(new(big.Int).Add(b[l/2], b[l/2-1]), big.NewInt(2))",
-  "x/oracle/keeper/index_recent_msg.go:Keeper.GetIndexRecentMsg:must:k.cdc.MustUnmarshal(b, &val)",
-  "x/oracle/keeper/index_recent_msg.go:Keeper.SetIndexRecentMsg:must:k.cdc.MustMarshal(&indexRecentMsg)",
-  "x/oracle/keeper/index_recent_params.go:Keeper.GetIndexRecentParams:must:k.cdc.MustUnmarshal(b, &val)",
-  "x/oracle/keeper/index_recent_params.go:Keeper.SetIndexRecentParams:must:k.cdc.MustMarshal(&indexRecentParams)",
-  "x/oracle/keeper/native_token.go:Keeper.GetStakerList:must:k.cdc.MustUnmarshal(value, stakerList)",
-  "x/oracle/keeper/native_token.go:Keeper.UpdateNSTByBalanceChange:index:stakerInfo.BalanceList[length-1]",
-  "x/oracle/keeper/native_token.go:Keeper.UpdateNSTByBalanceChange:must:k.cdc.MustMarshal(stakerInfo)",
-  "x/oracle/keeper/native_token.go:Keeper.UpdateNSTByBalanceChange:must:k.cdc.MustUnmarshal(value, stakerInfo)",
-  "x/oracle/keeper/native_token.go:parseBalanceChange:index:changes[byteIndex]",
-  "x/oracle/keeper/native_token.go:parseBalanceChange:index:changes[byteIndex]#2",
-  "x/oracle/keeper/native_token.go:parseBalanceChange:index:changes[byteIndex]#3",
-  "x/oracle/keeper/native_token.go:parseBalanceChange:index:sl.StakerAddrs[index]",
-  "x/oracle/keeper/nonce.go:Keeper.getNonce:must:k.cdc.MustUnmarshal(bz, &nonce)",
-  "x/oracle/keeper/nonce.go:Keeper.removeNonceWithValidatorAndFeederID:index:nonce.NonceList[:i]",
-  "x/oracle/keeper/nonce.go:Keeper.removeNonceWithValidatorAndFeederID:index:nonce.NonceList[i+1:]",
-  "x/oracle/keeper/nonce.go:Keeper.setNonce:must:k.cdc.MustMarshal(&nonce)",
-  "x/oracle/keeper/params.go:Keeper.GetParams:must:k.cdc.MustUnmarshal(bz, &params)",
-  "x/oracle/keeper/prices.go:Keeper.AppendPriceTR:errfall:err != nil",
-  "x/oracle/keeper/prices.go:Keeper.AppendPriceTR:must:k.cdc.MustMarshal(&priceTR)",
-  "x/oracle/keeper/prices.go:Keeper.GetPriceTRLatest:must:k.cdc.MustUnmarshal(b, &price)",
-  "x/oracle/keeper/recent_msg.go:Keeper.GetAllRecentMsgAsMap:must:k.cdc.MustUnmarshal(iterator.Value(), &val)",
-  "x/oracle/keeper/recent_msg.go:Keeper.SetRecentMsg:must:k.cdc.MustMarshal(&recentMsg)",
-  "x/oracle/keeper/recent_params.go:Keeper.GetAllRecentParamsAsMap:must:k.cdc.MustUnmarshal(iterator.Value(), &val)",
-  "x/oracle/keeper/recent_params.go:Keeper.SetRecentParams:must:k.cdc.MustMarshal(&recentParams)",
-  "x/oracle/keeper/validator_update_block.go:Keeper.GetValidatorUpdateBlock:must:k.cdc.MustUnmarshal(b, &val)",
-  "x/oracle/keeper/validator_update_block.go:Keeper.SetValidatorUpdateBlock:must:k.cdc.MustMarshal(&validatorUpdateBlock)",
-  "x/oracle/types/native_token.go:StakerInfo.Append:index:s.BalanceList[len(s.BalanceList)-maxSize:]",
-  "x/oracle/types/params.go:Params.GetAssetIDsFromTokenID:index:p.Tokens[tokenID]",
-  "x/oracle/types/params.go:Params.GetTokenInfo:index:p.Tokens[v.TokenID]",
-  "x/reward/keeper/keeper.go:Keeper.getPool:must:k.cdc.MustUnmarshal(value, &pool)",
-  "x/reward/keeper/keeper.go:Keeper.setPool:must:k.cdc.MustMarshal(&pool)",
-  "x/reward/keeper/params.go:Keeper.GetParams:must:k.cdc.MustUnmarshal(value, ret)",
-  "x/slash/keeper/params.go:Keeper.GetParams:must:k.cdc.MustUnmarshal(value, ret)"]
+def reviewTable : List (String × Review) := [
+  ("utils/store.go:KVStore.Get:must:store.cdc.MustUnmarshalLengthPrefixed(bz, value)", .codec),
+  ("utils/store.go:KVStore.Set:must:store.cdc.MustMarshalLengthPrefixed(value)", .codec),
+  ("utils/store.go:basicKey.AsKey:index:delimiter[0]", .assumed "delimiter is the non-empty constant utils.DelimiterForCombinedKey"),
+  ("utils/utils.go:SortByPower:index:indices[i]", .loopBound "indices are 0..len(powers)-1 and stay a permutation under sort.Slice; both callers pass three slices of equal length built in one loop"),
+  ("utils/utils.go:SortByPower:index:indices[i]#2", .loopBound "indices are 0..len(powers)-1 and stay a permutation under sort.Slice; both callers pass three slices of equal length built in one loop"),
+  ("utils/utils.go:SortByPower:index:indices[i]#3", .loopBound "indices are 0..len(powers)-1 and stay a permutation under sort.Slice; both callers pass three slices of equal length built in one loop"),
+  ("utils/utils.go:SortByPower:index:indices[j]", .loopBound "indices are 0..len(powers)-1 and stay a permutation under sort.Slice; both callers pass three slices of equal length built in one loop"),
+  ("utils/utils.go:SortByPower:index:indices[j]#2", .loopBound "indices are 0..len(powers)-1 and stay a permutation under sort.Slice; both callers pass three slices of equal length built in one loop"),
+  ("utils/utils.go:SortByPower:index:indices[j]#3", .loopBound "indices are 0..len(powers)-1 and stay a permutation under sort.Slice; both callers pass three slices of equal length built in one loop"),
+  ("utils/utils.go:SortByPower:index:operatorAddrs[idx]", .loopBound "indices are 0..len(powers)-1 and stay a permutation under sort.Slice; both callers pass three slices of equal length built in one loop"),
+  ("utils/utils.go:SortByPower:index:operatorAddrs[indices[i]]", .loopBound "indices are 0..len(powers)-1 and stay a permutation under sort.Slice; both callers pass three slices of equal length built in one loop"),
+  ("utils/utils.go:SortByPower:index:operatorAddrs[indices[j]]", .loopBound "indices are 0..len(powers)-1 and stay a permutation under sort.Slice; both callers pass three slices of equal length built in one loop"),
+  ("utils/utils.go:SortByPower:index:powers[idx]", .loopBound "indices are 0..len(powers)-1 and stay a permutation under sort.Slice; both callers pass three slices of equal length built in one loop"),
+  ("utils/utils.go:SortByPower:index:powers[indices[i]]", .loopBound "indices are 0..len(powers)-1 and stay a permutation under sort.Slice; both callers pass three slices of equal length built in one loop"),
+  ("utils/utils.go:SortByPower:index:powers[indices[i]]#2", .loopBound "indices are 0..len(powers)-1 and stay a permutation under sort.Slice; both callers pass three slices of equal length built in one loop"),
+  ("utils/utils.go:SortByPower:index:powers[indices[j]]", .loopBound "indices are 0..len(powers)-1 and stay a permutation under sort.Slice; both callers pass three slices of equal length built in one loop"),
+  ("utils/utils.go:SortByPower:index:powers[indices[j]]#2", .loopBound "indices are 0..len(powers)-1 and stay a permutation under sort.Slice; both callers pass three slices of equal length built in one loop"),
+  ("utils/utils.go:SortByPower:index:pubKeys[idx]", .loopBound "indices are 0..len(powers)-1 and stay a permutation under sort.Slice; both callers pass three slices of equal length built in one loop"),
+  ("utils/utils.go:SortByPower:index:sortedOperatorAddrs[i]", .loopBound "indices are 0..len(powers)-1 and stay a permutation under sort.Slice; both callers pass three slices of equal length built in one loop"),
+  ("utils/utils.go:SortByPower:index:sortedPowers[i]", .loopBound "indices are 0..len(powers)-1 and stay a permutation under sort.Slice; both callers pass three slices of equal length built in one loop"),
+  ("utils/utils.go:SortByPower:index:sortedPubKeys[i]", .loopBound "indices are 0..len(powers)-1 and stay a permutation under sort.Slice; both callers pass three slices of equal length built in one loop"),
+  ("x/appchain/coordinator/keeper/ibc_client.go:Keeper.MakeSubscriberGenesis:assert:consState.(*ibctmtypes.ConsensusState)", .notWired),
+  ("x/appchain/coordinator/keeper/ibc_client.go:Keeper.MakeSubscriberGenesis:index:keys[i]", .notWired),
+  ("x/appchain/coordinator/keeper/ibc_client.go:Keeper.MakeSubscriberGenesis:index:powers[i]", .notWired),
+  ("x/appchain/coordinator/keeper/ibc_client.go:Keeper.SetSubscriberGenesis:must:k.cdc.MustMarshal(genesis)", .notWired),
+  ("x/appchain/coordinator/keeper/impl_epochs_hooks.go:EpochsHooksWrapper.AfterEpochEnd:errfall:err != nil", .notWired),
+  ("x/appchain/coordinator/keeper/params.go:Keeper.GetParams:must:k.cdc.MustUnmarshal(bz, &params)", .notWired),
+  ("x/appchain/coordinator/keeper/register.go:Keeper.GetPendingSubChains:must:k.cdc.MustUnmarshal(store.Get(key), &res)", .notWired),
+  ("x/appchain/coordinator/keeper/timeout.go:Keeper.GetChainsToInitTimeout:must:k.cdc.MustUnmarshal(bz, &res)", .notWired),
+  ("x/appchain/coordinator/keeper/timeout.go:Keeper.SetChainsToInitTimeout:must:k.cdc.MustMarshal(&chains)", .notWired),
+  ("x/appchain/subscriber/keeper/params.go:Keeper.GetParams:must:k.cdc.MustUnmarshal(bz, &res)", .notWired),
+  ("x/assets/keeper/client_chain_asset.go:Keeper.GetAssetsDecimal:must:k.cdc.MustUnmarshal(value, &ret)", .codec),
+  ("x/assets/keeper/client_chain_asset.go:Keeper.GetStakingAssetInfo:must:k.cdc.MustUnmarshal(value, &ret)", .codec),
+  ("x/assets/keeper/operator_asset.go:Keeper.GetOperatorSpecifiedAssetInfo:must:k.cdc.MustUnmarshal(value, &ret)", .codec),
+  ("x/assets/keeper/operator_asset.go:Keeper.IterateAssetsForOperator:must:k.cdc.MustMarshal(&amounts)", .codec),
+  ("x/assets/keeper/operator_asset.go:Keeper.IterateAssetsForOperator:must:k.cdc.MustUnmarshal(iterator.Value(), &amounts)", .codec),
+  ("x/assets/keeper/operator_asset.go:Keeper.UpdateOperatorAssetState:must:k.cdc.MustMarshal(&assetState)", .codec),
+  ("x/assets/keeper/operator_asset.go:Keeper.UpdateOperatorAssetState:must:k.cdc.MustUnmarshal(value, &assetState)", .codec),
+  ("x/assets/keeper/params.go:Keeper.GetParams:must:k.cdc.MustUnmarshal(value, ret)", .codec),
+  ("x/assets/keeper/staker_asset.go:Keeper.GetStakerSpecifiedAssetInfo:must:k.cdc.MustUnmarshal(value, &ret)", .codec),
+  ("x/assets/keeper/staker_asset.go:Keeper.GetStakerSpecifiedAssetInfo:must:sdk.MustAccAddressFromBech32(operator)", .inputChecked "operator addresses are bech32-validated (ValidateBasic / AccAddressFromBech32) before they are stored"),
+  ("x/assets/keeper/staker_asset.go:Keeper.UpdateStakerAssetState:must:k.cdc.MustMarshal(&assetState)", .codec),
+  ("x/assets/keeper/staker_asset.go:Keeper.UpdateStakerAssetState:must:k.cdc.MustUnmarshal(value, &assetState)", .codec),
+  ("x/assets/types/keys.go:ParseID:index:keys[0]", .loopBound "strings.Split returns at least one element"),
+  ("x/assets/types/keys.go:ParseID:index:keys[0]#2", .loopBound "strings.Split returns at least one element"),
+  ("x/avs/keeper/impl_epoch_hook.go:EpochsHooksWrapper.AfterEpochEnd:errfall:err != nil", .finding "F-11b"),
+  ("x/avs/keeper/impl_epoch_hook.go:EpochsHooksWrapper.AfterEpochEnd:errfall:err != nil || power.ActiveUSDValue.IsNegative()", .finding "F-11b"),
+  ("x/avs/keeper/impl_epoch_hook.go:EpochsHooksWrapper.AfterEpochEnd:errfall:err != nil || taskPowerTotal.IsZero() || operatorPowerTotal.IsZero()", .finding "F-11b"),
+  ("x/avs/keeper/impl_epoch_hook.go:EpochsHooksWrapper.AfterEpochEnd:errfall:err != nil#2", .finding "F-11b"),
+  ("x/avs/keeper/impl_epoch_hook.go:EpochsHooksWrapper.AfterEpochEnd:quo:taskPowerTotal.Quo(operatorPowerTotal)", .guard "C11_guard_quo_after_not_zero"),
+  ("x/avs/keeper/keeper.go:Keeper.GetAVSInfo:must:k.cdc.MustUnmarshal(value, &ret)", .codec),
+  ("x/avs/keeper/keeper.go:Keeper.IterateAVSInfo:must:k.cdc.MustUnmarshal(iterator.Value(), &avs)", .codec),
+  ("x/avs/keeper/params.go:Keeper.GetParams:must:k.cdc.MustUnmarshal(value, ret)", .codec),
+  ("x/avs/keeper/task.go:Keeper.GetTaskInfo:must:k.cdc.MustUnmarshal(value, &ret)", .codec),
+  ("x/avs/keeper/task.go:Keeper.GroupTasksByIDAndAddress:index:taskGroup[i]", .loopBound "comparator of sort.Slice: i, j < len"),
+  ("x/avs/keeper/task.go:Keeper.GroupTasksByIDAndAddress:index:taskGroup[j]", .loopBound "comparator of sort.Slice: i, j < len"),
+  ("x/avs/keeper/task.go:Keeper.IterateResultInfo:must:k.cdc.MustUnmarshal(iterator.Value(), &task)", .codec),
+  ("x/avs/keeper/task.go:Keeper.SetTaskInfo:must:k.cdc.MustMarshal(task)", .codec),
+  ("x/avs/types/types.go:ChainIDWithoutRevision:index:splitStr[0]", .loopBound "strings.Split returns at least one element"),
+  ("x/delegation/keeper/abci.go:Keeper.EndBlock:must:sdk.MustAccAddressFromBech32(record.OperatorAddr)", .inputChecked "operator addresses are bech32-validated (ValidateBasic / AccAddressFromBech32) before they are stored"),
+  ("x/delegation/keeper/delegation_state.go:Keeper.DeleteStakerForOperator:index:stakers.Stakers[:i]", .loopBound "i is the index of the enclosing range loop over the same slice"),
+  ("x/delegation/keeper/delegation_state.go:Keeper.DeleteStakerForOperator:index:stakers.Stakers[i+1:]", .loopBound "i is the index of the enclosing range loop over the same slice"),
+  ("x/delegation/keeper/delegation_state.go:Keeper.DeleteStakerForOperator:must:k.cdc.MustMarshal(&stakers)", .codec),
+  ("x/delegation/keeper/delegation_state.go:Keeper.DeleteStakerForOperator:must:k.cdc.MustUnmarshal(value, &stakers)", .codec),
+  ("x/delegation/keeper/delegation_state.go:Keeper.GetStakersByOperator:must:k.cdc.MustUnmarshal(value, &stakerList)", .codec),
+  ("x/delegation/keeper/delegation_state.go:Keeper.IterateDelegations:must:k.cdc.MustUnmarshal(iterator.Value(), &amounts)", .codec),
+  ("x/delegation/keeper/delegation_state.go:Keeper.SetStakerShareToZero:must:k.cdc.MustMarshal(&delegationState)", .codec),
+  ("x/delegation/keeper/delegation_state.go:Keeper.SetStakerShareToZero:must:k.cdc.MustUnmarshal(value, &delegationState)", .codec),
+  ("x/delegation/keeper/delegation_state.go:Keeper.TotalDelegatedAmountForStakerAsset:must:sdk.MustAccAddressFromBech32(keys.GetOperatorAddr())", .inputChecked "operator addresses are bech32-validated (ValidateBasic / AccAddressFromBech32) before they are stored"),
+  ("x/delegation/keeper/delegation_state.go:Keeper.UpdateDelegationState:must:k.cdc.MustMarshal(&delegationState)", .codec),
+  ("x/delegation/keeper/delegation_state.go:Keeper.UpdateDelegationState:must:k.cdc.MustUnmarshal(value, &delegationState)", .codec),
+  ("x/delegation/keeper/share.go:TokensFromShares:quo:(stakerShare.MulInt(totalAmount)).Quo(totalShare)", .guard "C11_guard_tokensFromShares"),
+  ("x/delegation/keeper/un_delegation_state.go:Keeper.GetUndelegationRecords:must:k.cdc.MustUnmarshal(value, &undelegationRecord)", .codec),
+  ("x/delegation/keeper/un_delegation_state.go:Keeper.IterateUndelegationsByOperator:must:k.cdc.MustMarshal(&undelegation)", .codec),
+  ("x/delegation/keeper/un_delegation_state.go:Keeper.IterateUndelegationsByOperator:must:k.cdc.MustUnmarshal(iterator.Value(), &undelegation)", .codec),
+  ("x/delegation/keeper/un_delegation_state.go:Keeper.IterateUndelegationsByStakerAndAsset:must:k.cdc.MustMarshal(&undelegation)", .codec),
+  ("x/delegation/keeper/un_delegation_state.go:Keeper.IterateUndelegationsByStakerAndAsset:must:k.cdc.MustUnmarshal(infoValue, &undelegation)", .codec),
+  ("x/delegation/keeper/un_delegation_state.go:Keeper.SetUndelegationRecords:must:k.cdc.MustMarshal(&record)", .codec),
+  ("x/delegation/keeper/update_native_restaking_balance.go:Keeper.UpdateNSTBalance:quo:sdkmath.LegacyNewDecFromBigInt(pendingSlashAmount.BigInt()).Quo(sdkmath.LegacyNe…", .guard "C11_guard_quo_after_not_zero"),
+  ("x/delegation/types/keys.go:ParseStakerAssetIDAndOperator:index:stringList[0]", .loopBound "ParseJoinedStoreKey(key, 3) returns exactly 3 parts or an error"),
+  ("x/delegation/types/keys.go:ParseUndelegationRecordKey:index:stringList[0]", .loopBound "ParseJoinedStoreKey(key, 4) returns exactly 4 parts or an error"),
+  ("x/dogfood/keeper/abci.go:Keeper.EndBlock:errfall:err != nil", .noResultUsed),
+  ("x/dogfood/keeper/abci.go:Keeper.EndBlock:errfall:err != nil#2", .noResultUsed),
+  ("x/dogfood/keeper/abci.go:Keeper.EndBlock:index:keys[i]", .loopBound "i ranges over operators; SortByPower returns three slices of equal length"),
+  ("x/dogfood/keeper/abci.go:Keeper.EndBlock:index:powers[i]", .loopBound "i ranges over operators; SortByPower returns three slices of equal length"),
+  ("x/dogfood/keeper/impl_sdk.go:Keeper.IterateBondedValidatorsByPower:index:prevList[i]", .loopBound "comparator of sort.SliceStable: i, j < len"),
+  ("x/dogfood/keeper/impl_sdk.go:Keeper.IterateBondedValidatorsByPower:index:prevList[j]", .loopBound "comparator of sort.SliceStable: i, j < len"),
+  ("x/dogfood/keeper/impl_sdk.go:Keeper.IterateDelegations:panic:panic(\"unimplemented on this keeper\")", .finding "F-11a"),
+  ("x/dogfood/keeper/impl_sdk.go:Keeper.TotalBondedTokens:panic:panic(\"unimplemented on this keeper\")", .finding "F-11a"),
+  ("x/dogfood/keeper/opt_out.go:Keeper.GetConsensusAddrsToPrune:panic:panic(err)", .codec),
+  ("x/dogfood/keeper/opt_out.go:Keeper.GetOptOutsToFinish:panic:panic(err)", .codec),
+  ("x/dogfood/keeper/params.go:Keeper.GetDogfoodParams:must:k.cdc.MustUnmarshal(bz, &params)", .codec),
+  ("x/dogfood/keeper/pending.go:Keeper.SetPendingConsensusAddrs:must:k.cdc.MustMarshal(&addrs)", .codec),
+  ("x/dogfood/keeper/pending.go:Keeper.SetPendingOptOuts:must:k.cdc.MustMarshal(&addrs)", .codec),
+  ("x/dogfood/keeper/pending.go:Keeper.SetPendingUndelegations:must:k.cdc.MustMarshal(&undelegations)", .codec),
+  ("x/dogfood/keeper/unbonding.go:Keeper.GetUndelegationsToMature:panic:panic(err)", .codec),
+  ("x/dogfood/keeper/validators.go:Keeper.ApplyValidatorChanges:index:ret[i]", .loopBound "comparator of sort.Slice: i, j < len"),
+  ("x/dogfood/keeper/validators.go:Keeper.ApplyValidatorChanges:index:ret[i]#2", .loopBound "comparator of sort.Slice: i, j < len"),
+  ("x/dogfood/keeper/validators.go:Keeper.ApplyValidatorChanges:index:ret[i]#3", .loopBound "comparator of sort.Slice: i, j < len"),
+  ("x/dogfood/keeper/validators.go:Keeper.ApplyValidatorChanges:index:ret[j]", .loopBound "comparator of sort.Slice: i, j < len"),
+  ("x/dogfood/keeper/validators.go:Keeper.ApplyValidatorChanges:index:ret[j]#2", .loopBound "comparator of sort.Slice: i, j < len"),
+  ("x/dogfood/keeper/validators.go:Keeper.ApplyValidatorChanges:index:ret[j]#3", .loopBound "comparator of sort.Slice: i, j < len"),
+  ("x/dogfood/keeper/validators.go:Keeper.GetAllExocoreValidators:must:k.cdc.MustUnmarshal(iterator.Value(), &val)", .codec),
+  ("x/dogfood/keeper/validators.go:Keeper.GetExocoreValidator:must:k.cdc.MustUnmarshal(v, &validator)", .codec),
+  ("x/dogfood/keeper/validators.go:Keeper.GetHistoricalInfo:must:stakingtypes.MustUnmarshalHistoricalInfo(k.cdc, value)", .codec),
+  ("x/dogfood/keeper/validators.go:Keeper.GetLastTotalPower:must:k.cdc.MustUnmarshal(bz, &ip)", .codec),
+  ("x/dogfood/keeper/validators.go:Keeper.GetValidatorUpdates:must:k.cdc.MustUnmarshal(bz, &valUpdates)", .codec),
+  ("x/dogfood/keeper/validators.go:Keeper.SetExocoreValidator:must:k.cdc.MustMarshal(&validator)", .codec),
+  ("x/dogfood/keeper/validators.go:Keeper.SetHistoricalInfo:must:k.cdc.MustMarshal(hi)", .codec),
+  ("x/dogfood/keeper/validators.go:Keeper.SetLastTotalPower:must:k.cdc.MustMarshal(&sdk.IntProto{Int: power})", .codec),
+  ("x/dogfood/keeper/validators.go:Keeper.SetValidatorUpdates:must:k.cdc.MustMarshal(&stakingtypes.ValidatorUpdates{Updates: valUpdates})", .codec),
+  ("x/epochs/keeper/epoch_infos.go:Keeper.GetEpochInfo:must:k.cdc.MustUnmarshal(bz, &epoch)", .codec),
+  ("x/epochs/keeper/epoch_infos.go:Keeper.IterateEpochInfos:must:k.cdc.MustUnmarshal(iterator.Value(), &epoch)", .codec),
+  ("x/epochs/keeper/epoch_infos.go:Keeper.setEpochInfoUnchecked:must:k.cdc.MustMarshal(&epoch)", .codec),
+  ("x/evm/keeper/keeper.go:Keeper.WithChainID:panic:panic(\"chain id already set\")", .inputChecked "ctx.ChainID() is the genesis chain id, parsed by ParseChainID at InitChain; the same id every block"),
+  ("x/evm/keeper/keeper.go:Keeper.WithChainID:panic:panic(err)", .inputChecked "ctx.ChainID() is the genesis chain id, parsed by ParseChainID at InitChain; the same id every block"),
+  ("x/evm/keeper/params.go:Keeper.GetParams:must:k.cdc.MustUnmarshal(bz, &params)", .codec),
+  ("x/exomint/keeper/params.go:Keeper.GetParams:must:k.cdc.MustUnmarshal(bz, &params)", .codec),
+  ("x/feedistribution/keeper/allocation.go:Keeper.AllocateTokens:quo:math.LegacyNewDec(val.Power).QuoTruncate(math.LegacyNewDec(totalPreviousPower))", .guard "C11_guard_allocateTokens"),
+  ("x/feedistribution/keeper/allocation.go:Keeper.AllocateTokensToStakers:index:globalStakerAddressList[i]", .loopBound "comparator of sort.Slice: i, j < len"),
+  ("x/feedistribution/keeper/allocation.go:Keeper.AllocateTokensToStakers:index:globalStakerAddressList[j]", .loopBound "comparator of sort.Slice: i, j < len"),
+  ("x/feedistribution/keeper/allocation.go:Keeper.AllocateTokensToStakers:quo:stakerPower.QuoTruncate(curTotalStakersPowers)", .guard "C11_guard_quo_after_is_positive"),
+  ("x/feedistribution/keeper/allocation.go:Keeper.AllocateTokensToValidator:errfall:err != nil", .assumed "OperatorInfo cannot fail: the validator handed in was resolved from a registered operator by AllocateTokens; on failure the zero Commission.Rate would be dereferenced"),
+  ("x/feedistribution/keeper/keeper.go:Keeper.GetFeePool:must:k.cdc.MustMarshal(feePool)", .codec),
+  ("x/feedistribution/keeper/keeper.go:Keeper.GetFeePool:must:k.cdc.MustUnmarshal(b, fp)", .codec),
+  ("x/feedistribution/keeper/keeper.go:Keeper.GetStakerRewards:must:k.cdc.MustUnmarshal(bz, &rewards)", .codec),
+  ("x/feedistribution/keeper/keeper.go:Keeper.GetValidatorAccumulatedCommission:must:k.cdc.MustUnmarshal(b, &commission)", .codec),
+  ("x/feedistribution/keeper/keeper.go:Keeper.GetValidatorOutstandingRewards:must:k.cdc.MustUnmarshal(bz, &rewards)", .codec),
+  ("x/feedistribution/keeper/keeper.go:Keeper.SetFeePool:must:k.cdc.MustMarshal(feePool)", .codec),
+  ("x/feedistribution/keeper/keeper.go:Keeper.SetStakerRewards:must:k.cdc.MustMarshal(&rewards)", .codec),
+  ("x/feedistribution/keeper/keeper.go:Keeper.SetValidatorAccumulatedCommission:must:k.cdc.MustMarshal(&commission)", .codec),
+  ("x/feedistribution/keeper/keeper.go:Keeper.SetValidatorAccumulatedCommission:must:k.cdc.MustMarshal(&types.ValidatorAccumulatedCommission{})", .codec),
+  ("x/feedistribution/keeper/keeper.go:Keeper.SetValidatorOutstandingRewards:must:k.cdc.MustMarshal(&rewards)", .codec),
+  ("x/feedistribution/keeper/params.go:Keeper.GetParams:must:k.cdc.MustUnmarshal(bz, &params)", .codec),
+  ("x/feedistribution/types/keys.go:GetStakerOutstandingRewardsKey:must:address.MustLengthPrefix([]byte(staker))", .inputChecked "address / staker id shorter than 256 bytes: 20-byte addresses, staker ids of at most 66+3+18 characters"),
+  ("x/feedistribution/types/keys.go:GetValidatorAccumulatedCommissionKey:must:address.MustLengthPrefix(v.Bytes())", .inputChecked "address / staker id shorter than 256 bytes: 20-byte addresses, staker ids of at most 66+3+18 characters"),
+  ("x/feedistribution/types/keys.go:GetValidatorOutstandingRewardsKey:must:address.MustLengthPrefix(valAddr.Bytes())", .inputChecked "address / staker id shorter than 256 bytes: 20-byte addresses, staker ids of at most 66+3+18 characters"),
+  ("x/operator/keeper/common_func.go:CalculateUSDValue:quo:assetValueDec.QuoInt(divisor)", .guard "C11_guard_usdValue_divisor"),
+  ("x/operator/keeper/consensus_keys.go:Keeper.GetActiveOperatorsForChainID:index:pks[i]", .loopBound "GetOperatorsForChainID appends to both result slices in the same iteration"),
+  ("x/operator/keeper/consensus_keys.go:Keeper.GetOperatorsForChainID:index:iterator.Key()[len(prefix):]", .loopBound "the key comes from a prefix iterator, so len(key) >= len(prefix)"),
+  ("x/operator/keeper/consensus_keys.go:Keeper.GetOperatorsForChainID:must:k.cdc.MustUnmarshal(res, ret)", .codec),
+  ("x/operator/keeper/consensus_keys.go:Keeper.getOperatorConsKeyForChainID:must:k.cdc.MustUnmarshal(res, key)", .codec),
+  ("x/operator/keeper/operator.go:Keeper.GetOptedInfo:must:k.cdc.MustUnmarshal(value, &ret)", .codec),
+  ("x/operator/keeper/operator.go:Keeper.HandleOptedInfo:must:k.cdc.MustMarshal(info)", .codec),
+  ("x/operator/keeper/operator.go:Keeper.HandleOptedInfo:must:k.cdc.MustUnmarshal(value, info)", .codec),
+  ("x/operator/keeper/operator.go:Keeper.OperatorInfo:must:k.cdc.MustUnmarshal(value, &ret)", .codec),
+  ("x/operator/keeper/operator_slash_state.go:Keeper.UpdateOperatorSlashInfo:must:k.cdc.MustMarshal(&slashInfo)", .codec),
+  ("x/operator/keeper/slash.go:Keeper.SetJailedState:errfall:err != nil", .noResultUsed),
+  ("x/operator/keeper/slash.go:Keeper.SlashAssets:quo:slashUSDValue.Quo(stakingInfo.StakingAndWaitUnbonding)", .guard "C11_guard_slashAssets"),
+  ("x/operator/keeper/usd_value.go:Keeper.GetAVSUSDValue:must:k.cdc.MustUnmarshal(value, &ret)", .codec),
+  ("x/operator/keeper/usd_value.go:Keeper.GetOperatorOptedUSDValue:must:k.cdc.MustUnmarshal(value, &ret)", .codec),
+  ("x/operator/keeper/usd_value.go:Keeper.IterateOperatorsForAVS:must:k.cdc.MustMarshal(&optedUSDValues)", .codec),
+  ("x/operator/keeper/usd_value.go:Keeper.IterateOperatorsForAVS:must:k.cdc.MustUnmarshal(iterator.Value(), &optedUSDValues)", .codec),
+  ("x/operator/keeper/usd_value.go:Keeper.SetAVSUSDValue:must:k.cdc.MustMarshal(&setValue)", .codec),
+  ("x/oracle/keeper/aggregator/aggregator.go:aggregator.fillPrice:index:pSource.Prices[0]", .inputChecked "AggregatorContext.sanityCheck: at least one source and at least one price per source (deliver path); recache replays only messages that passed it"),
+  ("x/oracle/keeper/aggregator/aggregator.go:aggregator.fillPrice:index:pSource.Prices[0]#2", .inputChecked "AggregatorContext.sanityCheck: at least one source and at least one price per source (deliver path); recache replays only messages that passed it"),
+  ("x/oracle/keeper/aggregator/aggregator.go:aggregator.fillPrice:index:pSource.Prices[0]#3", .inputChecked "AggregatorContext.sanityCheck: at least one source and at least one price per source (deliver path); recache replays only messages that passed it"),
+  ("x/oracle/keeper/aggregator/aggregator.go:aggregator.fillPrice:index:pSource.Prices[0]#4", .inputChecked "AggregatorContext.sanityCheck: at least one source and at least one price per source (deliver path); recache replays only messages that passed it"),
+  ("x/oracle/keeper/aggregator/context.go:AggregatorContext.FillPrice:index:msg.Prices[0]", .inputChecked "AggregatorContext.sanityCheck: at least one source and at least one price per source (deliver path); recache replays only messages that passed it"),
+  ("x/oracle/keeper/aggregator/context.go:AggregatorContext.FillPrice:index:msg.Prices[0].Prices[0]", .inputChecked "AggregatorContext.sanityCheck: at least one source and at least one price per source (deliver path); recache replays only messages that passed it"),
+  ("x/oracle/keeper/aggregator/context.go:AggregatorContext.PrepareRoundEndBlock:intdiv:delta % feeder.Interval", .inputChecked "TokenFeeder.Interval >= 1 is enforced by Params.Validate (x/oracle/types/params.go) before params are stored"),
+  ("x/oracle/keeper/aggregator/context.go:AggregatorContext.PrepareRoundEndBlock:intdiv:delta / feeder.Interval", .inputChecked "TokenFeeder.Interval >= 1 is enforced by Params.Validate (x/oracle/types/params.go) before params are stored"),
+  ("x/oracle/keeper/aggregator/filter.go:filter.addPSource:index:pSource.Prices[0]", .inputChecked "AggregatorContext.sanityCheck: at least one source and at least one price per source (deliver path); recache replays only messages that passed it"),
+  ("x/oracle/keeper/cache/caches.go:Cache.AddCache:panic:panic(\"no other types are support\")", .assumed "all callers pass *ItemM, ItemP or ItemV (static types at the call sites)"),
+  ("x/oracle/keeper/cache/caches.go:cacheMsgs.commit:index:index.Index[i:]", .loopBound "i <= len(index.Index) when the scanning loop ends"),
+  ("x/oracle/keeper/cache/caches.go:cacheParams.commit:index:index.Index[i:]", .loopBound "i <= len(index.Index) when the scanning loop ends"),
+  ("x/oracle/keeper/common/types.go:BigIntList.Median:index:b[l/2-1]", .assumed "the calculator only takes the median of a round that holds at least one price"),
+  ("x/oracle/keeper/common/types.go:BigIntList.Median:index:b[l/2]", .assumed "the calculator only takes the median of a round that holds at least one price"),
+  ("x/oracle/keeper/common/types.go:BigIntList.Median:index:b[l/2]#2", .assumed "the calculator only takes the median of a round that holds at least one price"),
+  ("x/oracle/keeper/common/types.go:BigIntList.Median:quo:new(big.Int).Div(new(big.Int).Add(b[l/2], b[l/2-1]), big.NewInt(2))", .guard "C11_guard_median_divisor"),
+  ("x/oracle/keeper/index_recent_msg.go:Keeper.GetIndexRecentMsg:must:k.cdc.MustUnmarshal(b, &val)", .codec),
+  ("x/oracle/keeper/index_recent_msg.go:Keeper.SetIndexRecentMsg:must:k.cdc.MustMarshal(&indexRecentMsg)", .codec),
+  ("x/oracle/keeper/index_recent_params.go:Keeper.GetIndexRecentParams:must:k.cdc.MustUnmarshal(b, &val)", .codec),
+  ("x/oracle/keeper/index_recent_params.go:Keeper.SetIndexRecentParams:must:k.cdc.MustMarshal(&indexRecentParams)", .codec),
+  ("x/oracle/keeper/native_token.go:Keeper.GetStakerList:must:k.cdc.MustUnmarshal(value, stakerList)", .codec),
+  ("x/oracle/keeper/native_token.go:Keeper.UpdateNSTByBalanceChange:index:stakerInfo.BalanceList[length-1]", .candidate "F-11c"),
+  ("x/oracle/keeper/native_token.go:Keeper.UpdateNSTByBalanceChange:must:k.cdc.MustMarshal(stakerInfo)", .codec),
+  ("x/oracle/keeper/native_token.go:Keeper.UpdateNSTByBalanceChange:must:k.cdc.MustUnmarshal(value, stakerInfo)", .codec),
+  ("x/oracle/keeper/native_token.go:parseBalanceChange:index:changes[byteIndex]", .candidate "F-11c"),
+  ("x/oracle/keeper/native_token.go:parseBalanceChange:index:changes[byteIndex]#2", .candidate "F-11c"),
+  ("x/oracle/keeper/native_token.go:parseBalanceChange:index:changes[byteIndex]#3", .candidate "F-11c"),
+  ("x/oracle/keeper/native_token.go:parseBalanceChange:index:sl.StakerAddrs[index]", .candidate "F-11c"),
+  ("x/oracle/keeper/nonce.go:Keeper.getNonce:must:k.cdc.MustUnmarshal(bz, &nonce)", .codec),
+  ("x/oracle/keeper/nonce.go:Keeper.removeNonceWithValidatorAndFeederID:index:nonce.NonceList[:i]", .loopBound "i is the index of the enclosing range loop over the same slice"),
+  ("x/oracle/keeper/nonce.go:Keeper.removeNonceWithValidatorAndFeederID:index:nonce.NonceList[i+1:]", .loopBound "i is the index of the enclosing range loop over the same slice"),
+  ("x/oracle/keeper/nonce.go:Keeper.setNonce:must:k.cdc.MustMarshal(&nonce)", .codec),
+  ("x/oracle/keeper/params.go:Keeper.GetParams:must:k.cdc.MustUnmarshal(bz, &params)", .codec),
+  ("x/oracle/keeper/prices.go:Keeper.AppendPriceTR:errfall:err != nil", .noResultUsed),
+  ("x/oracle/keeper/prices.go:Keeper.AppendPriceTR:must:k.cdc.MustMarshal(&priceTR)", .codec),
+  ("x/oracle/keeper/prices.go:Keeper.GetPriceTRLatest:must:k.cdc.MustUnmarshal(b, &price)", .codec),
+  ("x/oracle/keeper/recent_msg.go:Keeper.GetAllRecentMsgAsMap:must:k.cdc.MustUnmarshal(iterator.Value(), &val)", .codec),
+  ("x/oracle/keeper/recent_msg.go:Keeper.SetRecentMsg:must:k.cdc.MustMarshal(&recentMsg)", .codec),
+  ("x/oracle/keeper/recent_params.go:Keeper.GetAllRecentParamsAsMap:must:k.cdc.MustUnmarshal(iterator.Value(), &val)", .codec),
+  ("x/oracle/keeper/recent_params.go:Keeper.SetRecentParams:must:k.cdc.MustMarshal(&recentParams)", .codec),
+  ("x/oracle/keeper/validator_update_block.go:Keeper.GetValidatorUpdateBlock:must:k.cdc.MustUnmarshal(b, &val)", .codec),
+  ("x/oracle/keeper/validator_update_block.go:Keeper.SetValidatorUpdateBlock:must:k.cdc.MustMarshal(&validatorUpdateBlock)", .codec),
+  ("x/oracle/types/native_token.go:StakerInfo.Append:index:s.BalanceList[len(s.BalanceList)-maxSize:]", .loopBound "guarded by len(s.BalanceList) > maxSize"),
+  ("x/oracle/types/params.go:Params.GetAssetIDsFromTokenID:index:p.Tokens[tokenID]", .loopBound "guarded by tokenID >= len(p.Tokens) => return"),
+  ("x/oracle/types/params.go:Params.GetTokenInfo:index:p.Tokens[v.TokenID]", .inputChecked "TokenFeeder.TokenID < len(Tokens) is enforced by Params.Validate"),
+  ("x/reward/keeper/keeper.go:Keeper.getPool:must:k.cdc.MustUnmarshal(value, &pool)", .codec),
+  ("x/reward/keeper/keeper.go:Keeper.setPool:must:k.cdc.MustMarshal(&pool)", .codec),
+  ("x/reward/keeper/params.go:Keeper.GetParams:must:k.cdc.MustUnmarshal(value, ret)", .codec),
+  ("x/slash/keeper/params.go:Keeper.GetParams:must:k.cdc.MustUnmarshal(value, ret)", .codec)]
 
-def knownFindingSites : List String := [
-  "x/avs/keeper/impl_epoch_hook.go:EpochsHooksWrapper.AfterEpochEnd:errfall:err != nil",
-  "x/avs/keeper/impl_epoch_hook.go:EpochsHooksWrapper.AfterEpochEnd:errfall:err != nil || power.ActiveUSDValue.IsNegative()",
-  "x/avs/keeper/impl_epoch_hook.go:EpochsHooksWrapper.AfterEpochEnd:errfall:err != nil || taskPowerTotal.IsZero() || operatorPowerTotal.IsZero()",
-  "x/avs/keeper/impl_epoch_hook.go:EpochsHooksWrapper.AfterEpochEnd:errfall:err != nil#2",
-  "x/dogfood/keeper/impl_sdk.go:Keeper.IterateDelegations:panic:panic(\"unimplemented on this keeper\")",
-  "x/dogfood/keeper/impl_sdk.go:Keeper.TotalBondedTokens:panic:panic(\"unimplemented on this keeper\")",
-  "x/operator/keeper/slash.go:Keeper.SlashAssets:quo:slashUSDValue.Quo(stakingInfo.StakingAndWaitUnbonding)"]
+def reviewed : List String := reviewTable.map (·.1)
+
+def knownFindingSites : List String := (reviewTable.filter (·.2.isFinding)).map (·.1)
 
 theorem C11_block_path_roots : blockPathRoots = reviewedRoots := by rfl
 
+set_option maxRecDepth 100000 in
 theorem C11_panic_sites_eq_reviewed : panicSitesInBlockPaths = reviewed := by rfl
 
 theorem C11_all_panic_sites_covered : ∀ s ∈ panicSitesInBlockPaths, s ∈ reviewed := by
   rw [C11_panic_sites_eq_reviewed]; intro s h; exact h
 
 set_option maxRecDepth 100000 in
+/-- no site is left without a review class -/
+theorem C11_no_unreviewed_sites : (reviewTable.filter (fun p => p.2 == Review.unreviewed)).length = 0 := by rfl
+
+set_option maxRecDepth 100000 in
+/-- how the 203 sites are discharged: by theorem / open finding / everything that is not closed by a
+theorem or a mechanical reason (findings, candidates, by-reading assumptions) -/
+theorem C11_review_counts :
+    reviewTable.length = 203 ∧
+    (reviewTable.filter (·.2.isGuard)).length = 8 ∧
+    (reviewTable.filter (·.2.isFinding)).length = 6 ∧
+    (reviewTable.filter (·.2.isOpen)).length = 17 := by
+  refine ⟨by rfl, by rfl, by rfl, by rfl⟩
+
+/-- the sites of the open findings (F-11a gov tally, F-11b AVS epoch hook) are on block paths -/
 theorem C11_finding_sites_are_on_block_paths : ∀ s ∈ knownFindingSites, s ∈ panicSitesInBlockPaths := by
-  rw [C11_panic_sites_eq_reviewed]; decide
+  rw [C11_panic_sites_eq_reviewed]
+  intro s h
+  simp only [knownFindingSites, List.mem_map, List.mem_filter] at h
+  obtain ⟨p, ⟨hp, _⟩, rfl⟩ := h
+  exact List.mem_map.mpr ⟨p, hp, rfl⟩
+
+/-! ### the guard lemmas' models are the regenerated Go kernels -/
+
+/-- the divisor `C11_guard_usdValue_divisor` is about is the one the regenerated CalculateUSDValue divides by -/
+theorem C11_tie_usdValue_divisor (a p ad pd : Int) :
+    ExoVerif.Gen.calculateUSDValue a p ad pd = ExoVerif.Dec.quoInt (ExoVerif.Dec.ofInt (a * p)) (usdDivisor ad pd) := rfl
+
+/-- the regenerated TokensFromShares reaches its Quo only with a non-zero total share -/
+theorem C11_tie_tokensFromShares_divisor (s t : ExoVerif.Dec) (a : Int)
+    (h1 : ExoVerif.Dec.gt s t = false) (h2 : ExoVerif.Dec.isZero t = false) :
+    ExoVerif.Gen.tokensFromShares s t a =
+      .ok (ExoVerif.Dec.truncateInt (ExoVerif.Dec.quo (ExoVerif.Dec.mulInt s a) t)) ∧ t.raw ≠ 0 := by
+  constructor
+  · simp [ExoVerif.Gen.tokensFromShares, h1, h2]
+  · simpa [ExoVerif.Dec.isZero] using h2
+
+/-- x/appchain (coordinator, subscriber) is not wired into the application -/
+theorem C11_appchain_not_wired : appWiredCustomModules.all (fun m => m != "x/appchain/coordinator" && m != "x/appchain/subscriber") = true := by
+  decide
 
 end ExoVerif.Blocks
